@@ -29,6 +29,9 @@ def Vector_na_value (truth : Term → Bool) : Out :=
           else
             Out.ret [] (Term.sym "None")
 
+/-- the decorators of dataiter/vector.py: Vector.na_value, outermost first -/
+def Vector_na_value_decorators : List String := ["property"]
+
 /-- dataiter/vector.py: Vector.na_dtype (sha256 of the function source: dd4bad661e423266) -/
 def Vector_na_dtype (truth : Term → Bool) : Out :=
   if truth (Term.app ".is_datetime" [(Term.sym "self")]) then
@@ -48,6 +51,9 @@ def Vector_na_dtype (truth : Term → Bool) : Out :=
           else
             Out.ret [] (Term.sym "object")
 
+/-- the decorators of dataiter/vector.py: Vector.na_dtype, outermost first -/
+def Vector_na_dtype_decorators : List String := ["property"]
+
 /-- dataiter/vector.py: Vector.is_na (sha256 of the function source: 489b24035d441d9d) -/
 def Vector_is_na (truth : Term → Bool) : Out :=
   if truth (Term.app ".is_datetime" [(Term.sym "self")]) then
@@ -64,13 +70,22 @@ def Vector_is_na (truth : Term → Bool) : Out :=
         else
           Out.ret [] (Term.app ".fast" [(Term.sym "self"), (Term.app "ListComp" [(Term.app "Is" [(Term.sym "x"), (Term.sym "None")]), (Term.app "in" [(Term.sym "x"), (Term.sym "self"), (Term.app "if" [])])]), (Term.sym "bool")])
 
+/-- the decorators of dataiter/vector.py: Vector.is_na, outermost first -/
+def Vector_is_na_decorators : List String := []
+
 /-- dataiter/vector.py: Vector.drop_na (sha256 of the function source: 94a4d2b6c906399e) -/
 def Vector_drop_na (truth : Term → Bool) : Out :=
   Out.ret [] (Term.app ".copy" [(Term.app "getitem" [(Term.sym "self"), (Term.app "~" [(Term.app ".is_na" [(Term.sym "self")])])])])
 
+/-- the decorators of dataiter/vector.py: Vector.drop_na, outermost first -/
+def Vector_drop_na_decorators : List String := []
+
 /-- dataiter/vector.py: Vector.tolist (sha256 of the function source: 6c6b05c5c3a558ee) -/
 def Vector_tolist (truth : Term → Bool) : Out :=
   Out.ret [] (Term.app "np.where(self.is_na(), None, self).tolist" [])
+
+/-- the decorators of dataiter/vector.py: Vector.tolist, outermost first -/
+def Vector_tolist_decorators : List String := []
 
 /-- dataiter/vector.py: Vector.equal (sha256 of the function source: e933f960452bc821) -/
 def Vector_equal (truth : Term → Bool) (self_length : Int) (other_length : Int) : Out :=
@@ -80,5 +95,8 @@ def Vector_equal (truth : Term → Bool) (self_length : Int) (other_length : Int
     let ii' : Term := (Term.app ".is_na" [(Term.sym "self")]);
     let jj' : Term := (Term.app ".is_na" [(Term.sym "other")]);
     Out.ret [] (Term.app "And" [(Term.app "np.all" [(Term.app "Eq" [ii', jj'])]), (Term.app "np.all" [(Term.app "Eq" [(Term.app "getitem" [(Term.sym "self"), (Term.app "~" [ii'])]), (Term.app "getitem" [(Term.sym "other"), (Term.app "~" [jj'])])])])])
+
+/-- the decorators of dataiter/vector.py: Vector.equal, outermost first -/
+def Vector_equal_decorators : List String := []
 
 end DI.Gen
